@@ -278,7 +278,7 @@ pub fn run_case(a: &[&str]) -> String {
             let seed: u64 = a[3].parse().unwrap();
             let inputs: Vec<Vec<u8>> = (0..nt * rounds)
                 .map(|i| {
-                    let mut x = seed.wrapping_mul(6364136223846793005).wrapping_add(i as u64 * 1442695040888963407 + 1);
+                    let mut x = seed.wrapping_mul(6364136223846793005).wrapping_add((i as u64).wrapping_mul(1442695040888963407).wrapping_add(1));
                     let len = 1 + (x >> 33) as usize % 120;
                     (0..len).map(|_| { x = x.wrapping_mul(6364136223846793005).wrapping_add(1442695040888963407); (x >> 56) as u8 }).collect()
                 })
